@@ -210,3 +210,75 @@ def step (s : St) : Ev → St
 def run (s : St) (evs : List Ev) : St := evs.foldl step s
 
 end HapVerif.ReqConn.Micro
+
+/-! # The request slot across a reconnection (`HomeKitConnection.request` with `_concurrency_limit = 1`)
+
+What `ReqConn` leaves to an explicit `reconnect` event AFTER quiescence happens here inside the window: the session is lost
+(`lose`: the future of the request on the wire gets its exception, transport and protocol are cleared - but neither the failed
+caller nor the callers queued on the semaphore have run yet) and the supervisor may install the next connection (`reconnect`)
+before they do.  When the loop runs (`settle`) the failed caller releases the slot and the queued callers get it one after the
+other.  `guarded = true` is the code as repaired (a request remembers the transport - here: the number of the connection - it
+was issued on and refuses to be sent on another one); `guarded = false` is the code as found: it only asked whether SOME
+protocol exists. -/
+
+namespace HapVerif.ReqConn.Queue
+
+inductive Outcome
+  | ok (conn : Nat)      -- answered on connection `conn`
+  | disconnected
+  deriving DecidableEq, Repr
+
+structure St where
+  up : Bool := true
+  conn : Nat := 0                          -- number of the current connection (the transport's identity)
+  holder : Option (Nat × Nat) := none      -- request on the wire: (id, connection it was SENT on)
+  failing : Option Nat := none             -- its future already holds the disconnection error; its task has not run yet
+  queue : List (Nat × Nat) := []           -- callers waiting for the slot: (id, connection the request was ISSUED on)
+  sent : List (Nat × Nat × Nat) := []      -- (id, connection written on, connection issued on)
+  log : List (Nat × Outcome) := []
+  deriving DecidableEq, Repr
+
+/-- callers get the slot one after the other until one of them puts its request on the wire -/
+def grant (guarded : Bool) : List (Nat × Nat) → St → St
+  | [], s => { s with queue := [] }
+  | (id, issuedOn) :: rest, s =>
+    if !s.up then grant guarded rest { s with log := s.log ++ [(id, Outcome.disconnected)] }          -- "Tried to send while not connected"
+    else if guarded && issuedOn != s.conn then
+      grant guarded rest { s with log := s.log ++ [(id, Outcome.disconnected)] }                       -- "Connection was replaced ..."
+    else { s with holder := some (id, s.conn), queue := rest, sent := s.sent ++ [(id, s.conn, issuedOn)] }
+
+/-- the loop runs until nothing is ready -/
+def settle (guarded : Bool) (s : St) : St :=
+  let s := match s.failing with
+    | some id => { s with failing := none, holder := none, log := s.log ++ [(id, Outcome.disconnected)] }
+    | none => s
+  match s.holder with
+  | some _ => s
+  | none => grant guarded s.queue s
+
+inductive Ev
+  | issue (id : Nat)     -- a caller's task starts `request(...)`; the loop runs
+  | answer               -- the accessory's response to the request on the wire arrives; the loop runs
+  | lose                 -- the session is lost (`connection_lost`); the loop does NOT run
+  | reconnect            -- the supervisor installs the next connection; the loop does NOT run
+  | tick                 -- the loop runs
+  deriving DecidableEq, Repr
+
+def step (guarded : Bool) (s : St) : Ev → St
+  | .issue id =>
+    let s := settle guarded s
+    if !s.up then { s with log := s.log ++ [(id, Outcome.disconnected)] }     -- "Connection lost before request could be sent"
+    else settle guarded { s with queue := s.queue ++ [(id, s.conn)] }
+  | .answer =>
+    let s := settle guarded s
+    match s.holder with
+    | some (id, c) => if s.up then settle guarded { s with holder := none, log := s.log ++ [(id, Outcome.ok c)] } else s
+    | none => s
+  | .lose =>
+    if s.up then { s with up := false, failing := s.holder.map (·.1) } else s
+  | .reconnect => if s.up then s else { s with up := true, conn := s.conn + 1 }
+  | .tick => settle guarded s
+
+def run (guarded : Bool) (s : St) (evs : List Ev) : St := evs.foldl (step guarded) s
+
+end HapVerif.ReqConn.Queue
